@@ -91,12 +91,12 @@ def gen_pub_cases(ctx: Ctx):
     ctr = 1000
     with sym.patched():
         sd = ProtectionDescriptor.parse(hostile.SID).get_target_sd()
-        for mode in ("DH", "ECDH_P256", "ECDH_P384"):
-            penv, _ = e2e.dc_envelopes(4, sd, (361, 31, 30), mode)
+        for mode, priv_len in (("DH", 64), ("ECDH_P256", 64), ("ECDH_P384", 64), ("ECDH_P384", 521), ("DH", 9), ("ECDH_P256", 255)):
+            penv, _ = e2e.dc_envelopes(4, sd, (361, 31, 30), mode, priv_len=priv_len)
             for seq_len in (2, 3, 6):
                 calls = []
                 for j in range(seq_len):
-                    draws = [stream(ctr, 32), stream(ctr + 1, 12), stream(ctr + 2, 8)]
+                    draws = [stream(ctr, 32), stream(ctr + 1, 12), stream(ctr + 2, -(-priv_len // 8))]
                     ctr += 3
                     calls.append([draws, b"same plaintext", hostile.SID])
                 cases.append([penv, calls])
